@@ -697,6 +697,7 @@ def do_set_points(ctx, g):
             new = hi - np.abs(new - hi)
     new = np.ascontiguousarray(new, dtype=float).reshape(old.shape)
     inplace = g.points is g.points and rng.random() < 0.35  # getter hands out the stored array (not AtomGrid-like copies)
+    inplace = inplace and g not in _SHARES  # never write into an array that a copy.copy sibling may share
     with ctx.guard("setter-accepts-same-shape", subject_of(g) + ".points"):
         if inplace:
             # reassignment through an augmented assignment / write-and-assign-back: the setter receives the SAME array
@@ -803,7 +804,10 @@ def _inplace_points_then_reseat(obj):
     """Edit the point array in place, then hand it back through the public setter (so that the object's own tree is rebuilt)."""
     pts = obj.points
     if isinstance(pts, np.ndarray) and pts.flags.writeable and pts.size:
-        pts += 3.0
+        if getattr(obj, "domain", None) is not None:
+            pts[...] = pts[::-1].copy()  # stay inside the declared domain of a OneDGrid: same set, reversed index mapping
+        else:
+            pts += 3.0
         obj.points = np.array(pts)
         mark(obj, "points-reassign")
 
@@ -1159,7 +1163,8 @@ def run_witness(ctx, name):
                 for o in (g, c):
                     _call(ctx, lambda: o.get_localgrid(c0, 0.7 * ext))
                 if _settable(g, "points"):
-                    g.points = np.ascontiguousarray(p[::-1] + 2.0 * ext)
+                    shift = 0.0 if getattr(g, "domain", None) is not None else 2.0 * ext  # stay inside a OneDGrid's domain
+                    g.points = np.ascontiguousarray(p[::-1] + shift)
                     mark(g, "points-reassign")
                 before = roundtrip.public_state(g)
                 c.weights = np.asarray(c.weights) * 2 + 1
